@@ -240,7 +240,11 @@ M_FIXED = {"tsid-preimage-collision", "no-tags", "negative-zero", "json-escaped-
            "star-literal-matcher", "tag-value-not-a-string", "binop-one-sided-timestamp", "binop-division-by-zero",
            "vector-matching-label-chars", "set-operator-with-on", "unary-minus", "comparison-scalar-on-the-left",
            "empty-intermediate-vector", "label-values-first-metric-only", "label-values-of-all-keys", "escaped-metric-name",
-           "mixed-name-vector-operand"}
+           "mixed-name-vector-operand",
+           # patch c09-26: count over series that share one group id
+           "name-regex-same-tagset",
+           # patch c09-27: series whose group has no labels
+           "empty-group-key"}
 
 
 def m_sig(what, cls):
